@@ -94,7 +94,7 @@ where
     }
 
     fn get_indentation(&self) -> usize {
-        if self.in_mixed() {
+        if self.in_mixed() || self.in_space_preserve() {
             return 0;
         }
         let mut count = 0;
@@ -178,7 +178,7 @@ where
             }
             EndTag(_) => {
                 let indentation = if self.xot.first_child(node).is_some() {
-                    let no_indentation = self.in_mixed();
+                    let no_indentation = self.in_mixed() || self.in_space_preserve();
                     self.pop();
                     if !no_indentation {
                         self.get_indentation()
